@@ -305,4 +305,15 @@ func runC14(c *Ctx) {
 	c.Min("T2-mix-tag", 3)
 	c.Min("T3-sibling-agreement", 8)
 	c.Min("T4-pool-passes-tag", 4)
+	// T6: "the rule that set it completes": the tag is read after the rule has returned, so everything the
+	// rule does -- the assignment to the tag in a branch of a conc block included -- must have happened by
+	// then: a conc statement returns only after the join of all its branches (the join obligations of C18-J1)
+	if cf := c.Fn("internal/base", "ConcStatement", "Evaluate"); cf != nil {
+		c.only = func(key string) bool { return strings.HasSuffix(key, "/barrier") || strings.HasSuffix(key, "/wait") }
+		c.joinBeforeReturnOnly = true
+		c.ruleA4("T6-rule-complete-when-it-returns", cf, isBaseEvaluate, c.engModel(cf).errList())
+		c.only = nil
+		c.joinBeforeReturnOnly = false
+	}
+	c.Min("T6-rule-complete-when-it-returns", 1)
 }
